@@ -344,6 +344,7 @@ def history_materialise(ctx, m, warm, name="plt00100", rate=6, tag="hist"):
     if mode == "same-path":
         path = os.path.join(ctx.scratch, name)
         world.write_plotfile(twin, path)
+        core.age_tree(ctx, path)
         try:
             warm(path)
         except Exception:
@@ -351,6 +352,7 @@ def history_materialise(ctx, m, warm, name="plt00100", rate=6, tag="hist"):
         import shutil
         shutil.rmtree(path)
         world.write_plotfile(m, path)
+        core.age_tree(ctx, path)
         return path, None, path, mode
     if src.flag(f"{tag}.fork"):
         ctx.fork_mode = True
